@@ -53,8 +53,16 @@ class Harness:
         self.file = hfile
         self.name = name
         self.line = line
-        self.props = kv.get("props", "").split(",")
         self.tier = kv.get("tier", "quick")
+        self.prop_tier = {}
+        for item in kv.get("props", "").split(","):
+            if not item:
+                continue
+            if item.endswith(":t"):
+                self.prop_tier[item[:-2]] = "thorough"
+            else:
+                self.prop_tier[item] = self.tier
+        self.props = list(self.prop_tier)
         self.unwind = kv.get("unwind")
         self.stubs = [s for s in kv.get("stubs", "").split(",") if s]
         self.expect_fail = kv.get("expect_fail")  # regex on check descriptions that MUST fail (must-panic protocol)
